@@ -9,6 +9,7 @@
 //!   | file fat <path> <member index>           one member of a fat Mach-O fixture (the code is served the whole archive)
 //!   | file jit <elf machine>                   a generated JITDUMP file
 //!   text <hex> / data <gap> <hex> / bss <n> / fsym <relvalue> <size>      (synthetic ELF files only)
+//!   bsym <func|public> <rel> <size>          (synthetic ELF only) records of a Breakpad .sym served as the debug file
 //!   rec <namelen> <hex code> / skip <kind> <len>                          (JITDUMP only: code-load records / other records)
 //!   member <start> <size>                    (fat only, informational) file range of the member
 //!   arch <string|none>                       what `BinaryImage::arch()` returns for the loaded binary (observed)
@@ -83,15 +84,23 @@ impl FileLocation for Loc {
 struct Helper {
     name: String,
     bytes: Arc<[u8]>,
+    /// a Breakpad symbol file offered as the first candidate for the debug file
+    sym: Option<Arc<[u8]>>,
 }
+
+const SYM_NAME: &str = "syn.so.sym";
 impl FileAndPathHelper for Helper {
     type F = Arc<[u8]>;
     type FL = Loc;
     fn get_candidate_paths_for_debug_file(&self, info: &LibraryInfo) -> FileAndPathHelperResult<Vec<CandidatePathInfo<Loc>>> {
-        Ok(match &info.debug_name {
-            Some(n) => vec![CandidatePathInfo::SingleFile(Loc(n.clone()))],
-            None => vec![],
-        })
+        let mut v = Vec::new();
+        if self.sym.is_some() {
+            v.push(CandidatePathInfo::SingleFile(Loc(SYM_NAME.to_string())));
+        }
+        if let Some(n) = &info.debug_name {
+            v.push(CandidatePathInfo::SingleFile(Loc(n.clone())));
+        }
+        Ok(v)
     }
     fn get_candidate_paths_for_binary(&self, info: &LibraryInfo) -> FileAndPathHelperResult<Vec<CandidatePathInfo<Loc>>> {
         Ok(match &info.name {
@@ -105,6 +114,8 @@ impl FileAndPathHelper for Helper {
     fn load_file(&self, l: Loc) -> std::pin::Pin<Box<dyn OptionallySendFuture<Output = FileAndPathHelperResult<Arc<[u8]>>> + '_>> {
         let r: FileAndPathHelperResult<Arc<[u8]>> = if l.0 == self.name {
             Ok(self.bytes.clone())
+        } else if let (true, Some(b)) = (l.0 == SYM_NAME, &self.sym) {
+            Ok(b.clone())
         } else {
             Err(Box::new(std::io::Error::new(std::io::ErrorKind::NotFound, "no such file")))
         };
@@ -151,6 +162,9 @@ struct Bin {
     truth: Vec<(u64, Vec<u8>)>,
     /// JITDUMP: the code-load records as written
     jit: Option<Vec<JitRec>>,
+    /// synthetic ELF: a Breakpad symbol file that the helper offers as the debug file (symbols then come from it:
+    /// the last PUBLIC has no size, a FUNC may end beyond 2^32)
+    symfile: Option<Arc<[u8]>>,
     base: u64,
     secs: Vec<Reg>,
     segs: Vec<Reg>,
@@ -194,7 +208,7 @@ fn parse_bin(file_ops: Vec<String>, name: &str, serve: Arc<[u8]>, member: Option
     }
     let arch = arch_of(obj.architecture());
     drop(obj);
-    let mut bin = Bin { file_ops, name: name.to_string(), serve, bytes, member, debug_id, arch, code_arch: None, truth: Vec::new(), jit: None, base, secs, segs, entries: Vec::new() };
+    let mut bin = Bin { file_ops, name: name.to_string(), serve, bytes, member, debug_id, arch, code_arch: None, truth: Vec::new(), jit: None, symfile: None, base, secs, segs, entries: Vec::new() };
     bin.code_arch = observe_arch(&bin);
     Some(bin)
 }
@@ -219,7 +233,7 @@ fn library_info(bin: &Bin) -> LibraryInfo {
 }
 
 fn manager(bin: &Bin) -> SymbolManager<Helper> {
-    SymbolManager::with_helper(Helper { name: bin.name.clone(), bytes: bin.serve.clone() })
+    SymbolManager::with_helper(Helper { name: bin.name.clone(), bytes: bin.serve.clone(), sym: bin.symfile.clone() })
 }
 
 /// direct symbol lookup (what `get_function_end_address` consults): address and size of the symbol at `addr`
@@ -367,6 +381,8 @@ struct Syn {
     data: Option<(u64, Vec<u8>)>,
     bss: Option<u64>,
     fsyms: Vec<(u64, u64)>,
+    /// Breakpad records `(is_func, relative address, size)` of a symbol file served as the debug file
+    bsyms: Vec<(bool, u64, u64)>,
 }
 
 fn syn_ops(s: &Syn) -> Vec<String> {
@@ -379,6 +395,9 @@ fn syn_ops(s: &Syn) -> Vec<String> {
     }
     for (a, n) in &s.fsyms {
         v.push(format!("fsym {a} {n}"));
+    }
+    for (f, a, n) in &s.bsyms {
+        v.push(format!("bsym {} {a} {n}", if *f { "func" } else { "public" }));
     }
     v
 }
@@ -400,6 +419,7 @@ fn syn_from_ops(ops: &[String]) -> Option<Syn> {
             ["data", gap, h] => s.data = Some((gap.parse().ok()?, unhex(h))),
             ["bss", n] => s.bss = Some(n.parse().ok()?),
             ["fsym", a, n] => s.fsyms.push((a.parse().ok()?, n.parse().ok()?)),
+            ["bsym", k, a, n] => s.bsyms.push((*k == "func", a.parse().ok()?, n.parse().ok()?)),
             _ => {}
         }
     }
@@ -466,6 +486,17 @@ fn build_syn(s: &Syn) -> Option<Bin> {
     bin.truth.push((text_addr, s.text.clone()));
     if let Some((gap, d)) = &s.data {
         bin.truth.push((text_addr + s.text.len() as u64 + gap, d.clone()));
+    }
+    if !s.bsyms.is_empty() {
+        let mut t = format!("MODULE Linux x86_64 {} syn.so\n", bin.debug_id);
+        for (k, (f, a, n)) in s.bsyms.iter().enumerate() {
+            if *f {
+                t.push_str(&format!("FUNC {a:x} {n:x} 0 bf{k}\n"));
+            } else {
+                t.push_str(&format!("PUBLIC {a:x} 0 bp{k}\n"));
+            }
+        }
+        bin.symfile = Some(Arc::from(t.into_bytes()));
     }
     Some(bin)
 }
@@ -572,7 +603,7 @@ fn build_jit(j: &JitSpec) -> Option<Bin> {
     let serve: Arc<[u8]> = Arc::from(bytes);
     let name = "jit-4711.dump".to_string();
     // identity of the dump as the code computes it (debug id from pid / timestamp / machine)
-    let m = SymbolManager::with_helper(Helper { name: name.clone(), bytes: serve.clone() });
+    let m = SymbolManager::with_helper(Helper { name: name.clone(), bytes: serve.clone(), sym: None });
     let img = futures::executor::block_on(m.load_binary_at_location(Loc(name.clone()), Some(name.clone()), None, None)).ok()?;
     let debug_id = img.debug_id()?.breakpad().to_string();
     let code_arch = img.arch().map(|s| s.to_string());
@@ -585,7 +616,7 @@ fn build_jit(j: &JitSpec) -> Option<Bin> {
         _ => None,
     };
     let entries = recs.iter().map(|r| r.rel).collect();
-    Some(Bin { file_ops: jit_ops(j), name, serve: serve.clone(), bytes: serve, member: None, debug_id, arch, code_arch, truth: Vec::new(), jit: Some(recs), base: 0, secs: Vec::new(), segs: Vec::new(), entries })
+    Some(Bin { file_ops: jit_ops(j), name, serve: serve.clone(), bytes: serve, member: None, debug_id, arch, code_arch, truth: Vec::new(), jit: Some(recs), symfile: None, base: 0, secs: Vec::new(), segs: Vec::new(), entries })
 }
 
 // ---------------------------------------------------------------------------------------------
@@ -1063,7 +1094,29 @@ fn gen_syn(rng: &mut Rng) -> Vec<String> {
         fsyms.push((textoff + p + thumb, if rng.chance(1, 6) { 0 } else { n }));
         p += n.max(1) + rng.below(6);
     }
-    let syn = Syn { machine: machine.to_string(), vbase, textoff, segmode, text, data, bss, fsyms };
+    // one case in five takes its symbols from a Breakpad file instead of the ELF symbol table: FUNC records with a
+    // size, PUBLIC records without (the last PUBLIC has no size at all), sometimes a FUNC that ends beyond 2^32
+    let mut bsyms = Vec::new();
+    if rng.chance(1, 5) {
+        let mut p = rng.below(6);
+        while p < text.len() as u64 && bsyms.len() < 5 {
+            let n = rng.range(1, 60);
+            bsyms.push((rng.chance(1, 2), textoff + p, n.min(text.len() as u64 - p + rng.below(3))));
+            p += n + rng.below(4);
+        }
+        if rng.chance(2, 3) {
+            bsyms.push((false, textoff + (text.len() as u64).saturating_sub(rng.range(1, 12)), 0));
+        }
+        if rng.chance(1, 4) {
+            bsyms.push((true, 0xffff_fff0, 0x20));
+        }
+        if rng.chance(1, 4) {
+            // a FUNC inside the text whose end lies beyond 2^32: `symbol.address.checked_add(size)` is None
+            bsyms.push((true, textoff + rng.below(text.len() as u64), 0xffff_ffff));
+        }
+    }
+    let has_bsyms = !bsyms.is_empty();
+    let syn = Syn { machine: machine.to_string(), vbase, textoff, segmode, text, data, bss, fsyms, bsyms };
     let Some(bin) = build_syn(&syn) else { return vec!["note syn-build-failed".into()] };
     let tlen = syn.text.len() as u64;
     let end = textoff + tlen + syn.data.as_ref().map(|d| d.0 + d.1.len() as u64).unwrap_or(0) + syn.bss.unwrap_or(0);
@@ -1075,9 +1128,15 @@ fn gen_syn(rng: &mut Rng) -> Vec<String> {
         8 => (textoff.saturating_sub(rng.below(6)) + rng.below(3), "text-before"),
         _ => (textoff + rng.below(end - textoff + 8), "anywhere"),
     };
+    let (start, kind) = if has_bsyms && rng.chance(1, 2) {
+        let b = rng.pick(&syn.bsyms);
+        (b.1 + rng.below(3), "bsym-entry")
+    } else {
+        (start, kind)
+    };
     let remaining = (textoff + tlen).saturating_sub(start);
     let (size, skind) = gen_size(rng, remaining);
-    let cont = rng.chance(1, 2);
+    let cont = if has_bsyms { rng.chance(4, 5) } else { rng.chance(1, 2) };
     build_case(&bin, &format!("syn-{kind} {skind}"), u32c(start), size, cont)
 }
 
@@ -1089,7 +1148,7 @@ fn excluded_point(rng: &mut Rng) -> Vec<String> {
     let below = *rng.pick(&[0x10000u64, 0x1000, 0x7f00_0000, 0xffff_0000]);
     let vbase = 0u64.wrapping_sub(below);
     let text = code_snippet(rng, "x86_64", 32);
-    let syn = Syn { machine: "x86_64".into(), vbase, textoff: 0x100, segmode: "load".into(), text, data: None, bss: None, fsyms: vec![(0x100, 32)] };
+    let syn = Syn { machine: "x86_64".into(), vbase, textoff: 0x100, segmode: "load".into(), text, data: None, bss: None, fsyms: vec![(0x100, 32)], bsyms: Vec::new() };
     let Some(bin) = build_syn(&syn) else { return vec!["note syn-build-failed".into()] };
     let start = match rng.below(5) {
         0 => 0x100,
@@ -1181,10 +1240,34 @@ impl Prop for C20 {
                 let mut text = code_snippet(&mut rng, arch, 16);
                 text.extend_from_slice(pat);
                 text.extend(code_snippet(&mut rng, arch, 24));
-                let syn = Syn { machine: machine.into(), vbase: 0x10000, textoff: 0x100, segmode: "load".into(), text: text.clone(), data: None, bss: None, fsyms: vec![(0x100, text.len() as u64)] };
+                let syn = Syn { machine: machine.into(), vbase: 0x10000, textoff: 0x100, segmode: "load".into(), text: text.clone(), data: None, bss: None, fsyms: vec![(0x100, text.len() as u64)], bsyms: Vec::new() };
                 if let Some(bin) = build_syn(&syn) {
                     for (start, size, cont) in [(0x100u32, 40u32, false), (0x110, 8, false), (0x110, 1, true), (0x100, 0, true), (0x101, 0xffff_ffff, false)] {
                         v.push(Case { name: format!("inv-{arch}-{pi}-{start}-{size}-{}", cont as u8), ops: build_case(&bin, "fixed-invalid fixed", start, size, cont) });
+                    }
+                }
+            }
+        }
+        // symbols from a Breakpad file: a FUNC with a size, a PUBLIC whose size is the distance to the next symbol,
+        // a FUNC that ends beyond 2^32 (no function end), a last PUBLIC without any size; continuation requested
+        for (machine, arch) in [("386", "x86"), ("x86_64", "x86_64"), ("arm", "arm"), ("aarch64", "arm64")] {
+            let mut rng = Rng::new(0xb5);
+            let text = code_snippet(&mut rng, arch, 64);
+            let syn = Syn {
+                machine: machine.into(),
+                vbase: 0x10000,
+                textoff: 0x100,
+                segmode: "load".into(),
+                text,
+                data: None,
+                bss: None,
+                fsyms: vec![(0x100, 64)],
+                bsyms: vec![(true, 0x100, 13), (false, 0x110, 0), (true, 0x118, 0xffff_ffff), (false, 0x138, 0)],
+            };
+            if let Some(bin) = build_syn(&syn) {
+                for start in [0x100u32, 0x105, 0x10c, 0x10d, 0x110, 0x112, 0x118, 0x120, 0x137, 0x138, 0x13c, 0x13f, 0x140] {
+                    for size in [0u32, 4, 40] {
+                        v.push(Case { name: format!("bsym-{arch}-{start}-{size}"), ops: build_case(&bin, "fixed-bsym fixed", start, size, true) });
                     }
                 }
             }
@@ -1245,6 +1328,7 @@ impl Prop for C20 {
                 data: Some((0, vec![0x90, 0x00, 0xff, 0x1f, 0x20, 0x03, 0xd5, 0xc3])),
                 bss: Some(8),
                 fsyms: vec![(0x100, 13), (0x100 + 13 + if arch == "arm" { 1 } else { 0 }, (tlen - 13) as u64)],
+                bsyms: Vec::new(),
             };
             let sizes: &[u32] = if tier == Tier::Quick { &[0, 1, 2, 3, 5, 13, 40, 0xffff_ffff] } else { &[0, 1, 2, 3, 4, 5, 6, 7, 8, 12, 13, 14, 16, 24, 32, 40, 47, 0xffff_fff0, 0xffff_fff1, 0xffff_ffff] };
             if let Some(bin) = build_syn(&syn) {
